@@ -210,6 +210,11 @@ def run_case(c, stats):
     B = A if c["b"] is None else gfst.build(c["b"])
     with core.oracle_mode():
         ra, rb = extract.fst(A), extract.fst(B)
+        want = gfst.ref_of_case(c["a"])
+        core.LOG.count("C16.construction")
+        if (ra.trans, ra.starts, ra.finals) != (want.trans, want.starts, want.finals):
+            core.report(PROP, "construct", "transducer-differs-from-what-was-added",
+                        {"got": repr(ra.trans)[:200], "want": repr(want.trans)[:200]}, ["form:" + str(c["a"].get("form"))])
         bad = ra.eps_cycle_writes() or rb.eps_cycle_writes()
         stats.cls("eps_cycle_writes" if bad else "in_quantifier")
         for t in tags_of(ra):
